@@ -95,6 +95,16 @@ def run(facts, R):
             w = must_cross(ab, [term_pt(ab, ii)], [(x, y)], [term_pt(ab, pi)])
             R.check(w is None, "alias-pairing", ab.path, "insert -> true crosses the reverse-index append",
                     "alias() can return true after aliases.insert without recording the key in alias_index (remove would leave the alias behind)", st.get("span"), "push crossed", path=w)
+        # the result may also be the presence test itself (`let present = peers.contains_key(id); if present { link } present`):
+        # then there are no literal rows; the same obligations are stated on paths - from the forward insert every way out crosses
+        # the reverse-index append, except through the same-owner edge
+        same_edge = [(x, 0) for x in sorted(ab.live_blocks())
+                     if any(("eq(" in z and "as Some).0, arg2) is True" in z) or ("PartialEq" in z and "as Some).0" in z and z.endswith("is True")) for z in gt(x))]
+        if not trues:
+            w = must_cross(ab, [term_pt(ab, ii)], return_points(ab), [term_pt(ab, pi)] + same_edge)
+            R.check(w is None, "alias-pairing", ab.path, "insert -> true crosses the reverse-index append",
+                    "alias() can return after aliases.insert without recording the key in alias_index (remove would leave the alias behind)", it.get("span"), "push crossed", path=w)
+            n_same = 1 if same_edge else 0
         R.check(n_same == 1, "alias-pairing", ab.path, "one same-owner shortcut", "same-owner rows: %d" % n_same, ab.span)
         # displaced owner: retain on alias_index[prev] with a closure comparing to the key
         ri, rt = ret[0]
@@ -108,6 +118,11 @@ def run(facts, R):
             R.check("ne(" in txt and "arg1.key" in txt and "arg2" in txt, "alias-pairing", c.path, "retain predicate is k != key", "retain predicate: %s" % txt, c.span, txt[:80])
         other = [st.get("span") for x, y, st in ab.assigns() if st["place"]["l"] == 0 and not st["place"]["p"] and const_val(s.rvalue(st["rv"])) not in (0, 1)]
         other += [t.get("span") for x, t in ab.calls() if t["dest"]["l"] == 0 and not t["dest"]["p"]]
+        # a result that is the value of peers.contains_key(peer_id) is `true exactly when the peer was present`, i.e. when the
+        # insert (guarded by that same test, checked above) ran
+        present_rows = [st for x, y, st in ab.assigns() if st["place"]["l"] == 0 and not st["place"]["p"] and "contains_key(" in render_n(s.at(x, y).rvalue(st["rv"]))
+                        and ".peers, arg2)" in render_n(s.at(x, y).rvalue(st["rv"]))]
+        other = [sp_ for sp_ in other if sp_ not in [st.get("span") for st in present_rows]]
         R.check(not other, "alias-pairing", ab.path, "result is a literal true/false on every row",
                 "alias() computes its result at %s instead of returning a literal per row: the true/false rows above do not cover it" % other, ab.span)
         # on the displaced row every path insert->push goes through the retain or the previous owner has no list
@@ -160,6 +175,14 @@ def run(facts, R):
     rows = value_rows(gb, gs, facts, 0)
     okg = any("get#2(" in v and ".peers" in v and ".aliases" in v and "get#1(" in v for g, v in rows)
     R.check(okg, "alias-pairing", gb.path, "get_by resolves key -> id -> peer", "get_by rows %s" % [v[:120] for g, v in rows], gb.span)
+    # ... under ONE guard: resolving the key under one lock acquisition and fetching the peer under another lets a re-point plus the
+    # removal of the previous owner slip in between, and the lookup answers None for a key that was attached to a present peer throughout
+    locks = [i for i, t in gb.calls() if callee_matches(t["callee"], PR + "::lock")]
+    relock = [t["callee"]["path"] for i, t in gb.calls() if t["callee"]["path"].startswith(PR + "::") and not callee_matches(t["callee"], PR + "::lock")]
+    pc = path_counts(gb, locks)
+    R.check(pc is not None and pc[1] <= 1 and not relock, "alias-pairing", gb.path, "lookup reads both maps under one guard",
+            "get_by takes the registry lock %s time(s) on a path and calls %s (which lock again): the key -> id -> peer resolution is not one critical section"
+            % (pc[1] if pc else "?", relock), gb.span, "one PeerRegistry::lock per lookup, no nested locking calls")
 
     # ---------------- broadcast-loop -------------------------------------------------------------------------------
     bs = Sym(be)
